@@ -144,6 +144,8 @@ func (e *Env) Run(c *Case) Verdict {
 		return e.runPQL(c)
 	case "msg":
 		return e.runMsg(c)
+	case "env":
+		return e.runEnvelope(c)
 	}
 	return Verdict{Symptom: "harness", Detail: "unknown family " + c.Fam}
 }
@@ -321,7 +323,7 @@ func (e *Env) server() (*server, error) {
 	if e.srv != nil {
 		return e.srv, nil
 	}
-	s := &server{client: &http.Client{Timeout: 60 * time.Second}}
+	s := &server{client: &http.Client{Timeout: 25 * time.Second}}
 	var err error
 	if p := protect(func() {
 		s.cmd = test.MustRunCommand()
@@ -345,7 +347,7 @@ func (e *Env) server() (*server, error) {
 	if err != nil {
 		return nil, err
 	}
-	if !strings.Contains(d, "/"+hashVals(baselineVals())+"/") {
+	if !strings.Contains(d, "/standard="+hashVals(baselineVals())+"/") {
 		return nil, fmt.Errorf("digest %s does not show the baseline %s", d, hashVals(baselineVals()))
 	}
 	e.srv = s
@@ -388,14 +390,17 @@ func (s *server) digest() (string, error) {
 	sch, _ := json.Marshal(schemaDigest(s.cmd.API.Schema(ctx)))
 	out := fmt.Sprintf("%x", sha1.Sum(sch))
 	h := s.cmd.Server.Holder()
-	for _, view := range []string{"standard", "standard_c06"} {
+	var views []string
+	if fld := h.Field("i", "f"); fld != nil {
+		views = pilosa.VerifClusterFieldViews(fld)
+	}
+	sort.Strings(views)
+	for _, view := range views {
 		// the open fragment the node serves requests from (read under the fragment's
 		// own lock: a lock left held by a failed request shows up as a hang here)
 		f := pilosa.VerifHolderFragment(h, "i", "f", view, 0)
 		if f == nil {
-			// a view or fragment that does not exist holds no bits
-			out += "/" + hashVals(nil)
-			continue
+			continue // a view without a fragment holds no bits
 		}
 		var vals []uint64
 		if err := f.ForEachBit(func(row, col uint64) error {
@@ -404,9 +409,12 @@ func (s *server) digest() (string, error) {
 		}); err != nil {
 			return "", err
 		}
-		out += "/" + hashVals(vals)
+		if len(vals) == 0 {
+			continue // neither does an empty fragment
+		}
+		out += "/" + view + "=" + hashVals(vals)
 	}
-	return out, nil
+	return out + "/", nil
 }
 
 // schemaDigest names the indexes and fields only: views and fragments that hold no
@@ -556,6 +564,82 @@ func (e *Env) runServerImport(c *Case, data []byte) Verdict {
 		code, txt, perr := s.post("/index/i/field/f/import-roaring/0", "application/x-protobuf", body)
 		if perr != nil {
 			// the server stopped answering: let the deadline / process death decide
+			e.dropServer()
+			return Verdict{Symptom: "hang", Detail: "HTTP import-roaring: " + perr.Error()}
+		}
+		v.Class = "accepted"
+		if code != 200 {
+			v.Class, v.Detail = "rejected", fmt.Sprintf("HTTP %d %.200s", code, txt)
+		}
+	}
+	if v.Class == "accepted" {
+		s.dirty = true
+	}
+	return e.judge(s, v, before, true, false)
+}
+
+// runEnvelope submits an import-roaring request whose ENVELOPE is the subject: the
+// number of views, their names, the class of their data, the clear flag alone, no view
+// map at all.
+func (e *Env) runEnvelope(c *Case) Verdict {
+	s, err := e.server()
+	if err != nil {
+		return Verdict{Symptom: "harness", Detail: err.Error()}
+	}
+	before, err := s.digest()
+	if err != nil {
+		return Verdict{Symptom: "harness", Detail: "digest: " + err.Error()}
+	}
+	req := &pilosa.ImportRoaringRequest{Clear: c.Clear}
+	if c.Form == "map" {
+		req.Views = map[string][]byte{}
+	}
+	for _, vw := range c.Views {
+		var data []byte
+		switch vw.Data {
+		case "valid":
+			// a bit no earlier case has set (or, with the clear flag, one that an
+			// earlier case may have set): applying this view alone is visible
+			s.novel++
+			data = EncodePilosaVals([]uint64{7<<20 | s.novel%(1<<20)})
+		case "zero":
+			data = []byte{}
+		case "short":
+			data = []byte{0x3c}
+		case "garbage":
+			data = []byte{1, 2, 3, 4, 5, 6, 7, 8}
+		default:
+			return Verdict{Symptom: "harness", Detail: "unknown data class " + vw.Data}
+		}
+		req.Views[vw.Name] = data
+	}
+	v := Verdict{}
+	if c.Entry == "api_import_env" {
+		var ierr error
+		if p := protect(func() {
+			ctx, cancel := context.WithTimeout(context.Background(), 20*time.Second)
+			defer cancel()
+			ierr = s.cmd.API.ImportRoaring(ctx, "i", "f", 0, false, req)
+		}); p != "" {
+			e.dropServer()
+			return crashVerdict(p)
+		}
+		v.Class = "accepted"
+		if ierr != nil {
+			v.Class, v.Detail = "rejected", ierr.Error()
+			if ierr == context.DeadlineExceeded {
+				e.dropServer()
+				return Verdict{Symptom: "hang", Detail: "API.ImportRoaring did not answer within 20s"}
+			}
+		}
+	} else {
+		// an absent map and no clear flag is the empty protobuf body
+		body, merr := proto.Serializer{}.Marshal(req)
+		if merr != nil {
+			return Verdict{Symptom: "harness", Detail: merr.Error()}
+		}
+		code, txt, perr := s.post("/index/i/field/f/import-roaring/0", "application/x-protobuf", body)
+		if perr != nil {
 			e.dropServer()
 			return Verdict{Symptom: "hang", Detail: "HTTP import-roaring: " + perr.Error()}
 		}
